@@ -152,10 +152,14 @@ impl C16 {
                 if big {
                     ctx.probe("tape_longer_than_256k");
                     // program and stack below the load area 0x6000..0xFC40, every block loaded over the previous one
+                    // one request per frame (EI ; HALT between them), over and over: a host rewind on the way makes the
+                    // following requests get the first blocks again
+                    let head = prog.len();
                     for _ in 0..7 {
-                        prog.extend_from_slice(&[0xDD, 0x21, 0x00, 0x60, 0x11, 0x40, 0x9C, 0x3E, 0xFF, 0x37, 0xCD, 0x56, 0x05]);
+                        prog.extend_from_slice(&[0xDD, 0x21, 0x00, 0x60, 0x11, 0x40, 0x9C, 0x3E, 0xFF, 0x37, 0xCD, 0x56, 0x05, 0xFB, 0x76]);
                     }
-                    prog.extend_from_slice(&[0x18, 0xFE]);
+                    let back = 0x5D00u16 + head as u16;
+                    prog.extend_from_slice(&[0xC3, back as u8, (back >> 8) as u8]);
                     write_mem(&mut e, 0x5D00, &prog);
                     let mut st = crate::cpustate::CpuState::default();
                     st.pc = 0x5D00;
@@ -306,7 +310,18 @@ impl C16 {
                 let r = e.emulate_frames(limit);
                 guard += 1;
                 match r {
-                    Err(x) => return Err(Fail::new("C16.emulate_err", "", format!("emulate_frames failed at frame {}: {:?}", frame + done, x))),
+                    Err(x) => {
+                        if sc.get("zero_tail") != 0 {
+                            // a tape image ending in an item of length zero may legitimately make the deck report an
+                            // error: whatever happens must happen under every driving and asset implementation alike
+                            let mut h = Fnv::new();
+                            h.str(&format!("{:?}", x));
+                            trace.hashes.push((usize::MAX, h.get()));
+                            trace.hashes.push((usize::MAX - 1, state_hash(&mut e, m128, true)));
+                            return Ok(trace);
+                        }
+                        return Err(Fail::new("C16.emulate_err", "", format!("emulate_frames failed at frame {}: {:?}", frame + done, x)));
+                    }
                     Ok(info) => match info.stop_reason {
                         EmulationStopReason::Completed => done += if d.mode == 1 { n } else { 1 },
                         EmulationStopReason::Timeout => {
@@ -416,7 +431,15 @@ impl Property for C16 {
         sc.set("frames", k);
         // tape (small) for insertion events
         let blocks = if content == 3 { super::c12::gen_tape(rng, 3, 302) } else { super::c12::gen_tape(rng, 2, 60) };
-        sc.push(Op::blob("tape", &[], tape::make_tap(&blocks)));
+        let mut img = tape::make_tap(&blocks);
+        if content == 3 && rng.chance(1, 5) {
+            // the image ends in an item of length zero (the last request of the program meets it)
+            let keep = blocks.len().min(2);
+            img = tape::make_tap(&blocks[..keep]);
+            img.extend_from_slice(&[0x00, 0x00]);
+            sc.set("zero_tail", 1);
+        }
+        sc.push(Op::blob("tape", &[], img));
         if content == 3 {
             // the tape is in the deck from the start; in half of the runs it also plays (real-time loader);
             // in a third the frame phase is calibrated so that the first fast-load trap is raised by the
@@ -426,9 +449,13 @@ impl Property for C16 {
                 sc.set("align", rng.range(1, 3));
                 sc.set("fastload", 1);
             } else if rng.chance(1, 4) {
-                // a tape longer than 256 KiB, fast-loaded block by block
+                // a tape longer than 256 KiB, fast-loaded block by block; in half of the runs the host rewinds it
+                // somewhere on the way (the following requests get the first blocks again)
                 sc.set("big", 1);
                 sc.set("fastload", 1);
+                if rng.bool() {
+                    sc.op("ev", &[rng.range(1, (k - 1).max(1)), 9, 0, 0]);
+                }
             } else if rng.chance(1, 4) {
                 // the ROM loader waits for a stopped tape with fast loading off; the host switches fast loading on
                 // later, between two frames
@@ -605,6 +632,14 @@ impl Property for C16 {
                     ctx.probe("cmp_asset_kind");
                 }
                 // compare at common frames
+                let ended_in_error = |t: &Trace| t.hashes.iter().any(|x| x.0 == usize::MAX);
+                if ended_in_error(b) != ended_in_error(&t) {
+                    return Err(Fail::new(
+                        "C16.state_differs",
+                        &format!("mode={},asset={},error_in_one_driving=1", d.mode, d.asset_kind),
+                        format!("driving #{} (mode {} asset {}) {} with an error from emulate_frames, the one-frame-per-call driving {}", di, d.mode, d.asset_kind, if ended_in_error(&t) { "ended" } else { "did not end" }, if ended_in_error(b) { "did" } else { "did not" }),
+                    ));
+                }
                 for (f, hv) in &t.hashes {
                     if let Some((_, bv)) = b.hashes.iter().find(|x| x.0 == *f) {
                         if bv != hv {
